@@ -53,7 +53,10 @@ fn parse_cfg_match_inner<'a>(
         {
             let item = match parser.parse_item(ForceCollect::No) {
                 Ok(Some(item_ptr)) => item_ptr.into_inner(),
-                Ok(None) => continue,
+                // Nothing was parsed and nothing was consumed: going round again would never end.
+                Ok(None) => {
+                    return Err("Expected item inside cfg_match block, but found something else");
+                }
                 Err(err) => {
                     err.cancel();
                     parser.psess.dcx().reset_err_count();
